@@ -354,7 +354,7 @@ impl<K: El, V: El> Mon<K, V> {
                         rethrow_fuse(&p);
                         out.act.push(2);
                         if !p.contains("capacity overflow") || !reserve_may_fail(st0, amount) {
-                            return Err(Viol { prop: "C01", more: &["C10"], msg: format!("extend from an iterator claiming at least {lo} items: undocumented panic: {p}") });
+                            return Err(Viol { extra: Vec::new(), prop: "C01", more: &["C10"], msg: format!("extend from an iterator claiming at least {lo} items: undocumented panic: {p}") });
                         }
                         self.stats.expected_panics += 1;
                         for (kid, vid) in ids {
